@@ -250,7 +250,10 @@ func (gb GenBank) String() string {
 	for _, ref := range gb.Fields.References {
 		b.WriteString(fmt.Sprintf("REFERENCE   %d", ref.Number))
 		if ref.Info != "" {
-			pad := strings.Repeat(" ", 3-len(strconv.Itoa(ref.Number)))
+			pad := ""
+			if n := 3 - len(strconv.Itoa(ref.Number)); n > 0 {
+				pad = strings.Repeat(" ", n)
+			}
 			b.WriteString(pad + ref.Info)
 		}
 		b.WriteByte('\n')
